@@ -8,6 +8,7 @@ import (
 	"os"
 	"path/filepath"
 	"strconv"
+	"strings"
 	"time"
 )
 
@@ -58,7 +59,7 @@ func Parse(prop string) *Opts {
 		if st, err := os.Stat(base); err != nil || !st.IsDir() {
 			base = filepath.Join(Root(), ".work")
 		}
-		o.Work = filepath.Join(base, fmt.Sprintf("rgverif-%s-%d", prop, os.Getpid()))
+		o.Work = filepath.Join(base, fmt.Sprintf("rgverif-%s-%d", strings.ToLower(prop), os.Getpid())) // lower case: the server lower-cases its logdir setting
 	}
 	_ = os.MkdirAll(o.Work, 0o755)
 	_ = os.MkdirAll(o.Replays, 0o755)
